@@ -731,3 +731,82 @@ Proof.
   split; [right; exact Hin2|]. split; [reflexivity|]. split; [exact Hpl2|]. split; [exact Hin2|].
   split; [eapply rf_ref_ext; eauto|]. split; eapply rf_ref_ext; eauto.
 Qed.
+
+(* ------------------------------------------------------------------ boolean checkers (for concrete states) *)
+Definition rf_hdr_eqb (a b : fm_chunk_header) : bool :=
+  (fm_item_next a =? fm_item_next b) && (fm_item_prev a =? fm_item_prev b) && (fm_tag a =? fm_tag b) && (fm_rsv0 a =? fm_rsv0 b) &&
+  (fm_chunk_meta a =? fm_chunk_meta b) && (fm_payload_length a =? fm_payload_length b) && (fm_payload_prev_length a =? fm_payload_prev_length b).
+Lemma rf_hdr_eqb_eq : forall a b, rf_hdr_eqb a b = true -> a = b.
+Proof.
+  intros [a1 a2 a3 a4 a5 a6 a7] [b1 b2 b3 b4 b5 b6 b7] H. unfold rf_hdr_eqb in H. cbn in H.
+  repeat (apply andb_true_iff in H; destruct H as [H ?]).
+  repeat match goal with E : (_ =? _) = true |- _ => apply N.eqb_eq in E end. subst. reflexivity.
+Qed.
+
+Definition rf_disk_okb (fend : N) (disk : list (N * fm_chunk_header)) : bool :=
+  forallb (fun oh => negb (fst oh =? 0) && (fst oh + fm_chunk_size (fm_payload_length (snd oh)) <=? fend) &&
+                     negb (fm_tag (snd oh) =? JLS_TAG_INVALID) &&
+                     forallb (fun oh' => negb (fst oh' =? fst oh) || (fm_payload_length (snd oh') =? fm_payload_length (snd oh))) disk) disk.
+Lemma rf_disk_okb_ok : forall fend disk, rf_disk_okb fend disk = true -> rf_disk_ok fend disk.
+Proof.
+  intros fend disk H o h Hin. unfold rf_disk_okb in H. rewrite forallb_forall in H. specialize (H (o, h) Hin). cbn [fst snd] in H.
+  apply andb_true_iff in H as [H H4]. apply andb_true_iff in H as [H H3]. apply andb_true_iff in H as [H1 H2].
+  split; [apply N.eqb_neq; destruct (o =? 0); [discriminate|reflexivity]|].
+  split; [apply N.leb_le; exact H2|]. split; [apply N.eqb_neq; destruct (fm_tag h =? JLS_TAG_INVALID); [discriminate|reflexivity]|].
+  intros h' Hin'. rewrite forallb_forall in H4. specialize (H4 (o, h') Hin'). cbn [fst snd] in H4.
+  rewrite N.eqb_refl in H4. cbn [negb orb] in H4. apply N.eqb_eq. exact H4.
+Qed.
+
+Definition rf_rokb (r : wm_raw) : bool :=
+  (wm_offset r =? wm_fpos r) && (wm_fend r =? wm_fpos r) && negb (wm_fault r) && (32 <=? wm_fend r) &&
+  (rp_end (rf_scan (wm_rlog r)) =? wm_fend r) && (match rp_pend (rf_scan (wm_rlog r)) with None => true | Some _ => false end) &&
+  rf_disk_okb (wm_fend r) (wm_disk r).
+Lemma rf_rokb_ok : forall r, rf_rokb r = true -> rf_rok r.
+Proof.
+  intros r H. unfold rf_rokb in H.
+  apply andb_true_iff in H as [H H7]. apply andb_true_iff in H as [H H6]. apply andb_true_iff in H as [H H5].
+  apply andb_true_iff in H as [H H4]. apply andb_true_iff in H as [H H3]. apply andb_true_iff in H as [H1 H2].
+  apply N.eqb_eq in H1, H2, H5. apply N.leb_le in H4.
+  split; [split; [exact H1|split; [exact H2|destruct (wm_fault r); [discriminate|reflexivity]]]|].
+  split; [exact H4|]. split; [exact H5|].
+  split; [destruct (rp_pend (rf_scan (wm_rlog r))); [discriminate|reflexivity]|]. apply rf_disk_okb_ok. exact H7.
+Qed.
+
+Definition rf_refb (r : wm_raw) (c : wm_chunk) : bool :=
+  (wm_ck_offset c =? 0) || existsb (fun oh => (fst oh =? wm_ck_offset c) && rf_hdr_eqb (snd oh) (wm_ck_hdr c)) (wm_disk r).
+Lemma rf_refb_ok : forall r c, rf_refb r c = true -> rf_ref r c.
+Proof.
+  intros r c H. unfold rf_refb in H. apply orb_true_iff in H. destruct H as [H|H]; [left; apply N.eqb_eq; exact H|].
+  right. apply existsb_exists in H. destruct H as ([o h] & Hin & H). cbn [fst snd] in H. apply andb_true_iff in H. destruct H as [H1 H2].
+  apply N.eqb_eq in H1. apply rf_hdr_eqb_eq in H2. subst. exact Hin.
+Qed.
+
+Definition rf_bokb (b : wm_base) : bool :=
+  rf_rokb (wm_b_raw b) && rf_refb (wm_b_raw b) (wm_b_source_head b) && rf_refb (wm_b_raw b) (wm_b_signal_head b) && rf_refb (wm_b_raw b) (wm_b_ud_head b).
+Lemma rf_bokb_ok : forall b, rf_bokb b = true -> rf_bok b.
+Proof.
+  intros b H. unfold rf_bokb in H.
+  apply andb_true_iff in H as [H H4]. apply andb_true_iff in H as [H H3]. apply andb_true_iff in H as [H1 H2].
+  split; [apply rf_rokb_ok; exact H1|]. split; [apply rf_refb_ok; exact H2|]. split; apply rf_refb_ok; assumption.
+Qed.
+
+Definition rf_tokb (r : wm_raw) (t : wm_track) : bool :=
+  rf_refb r (wm_tk_data_head t) && forallb (rf_refb r) (wm_tk_index_head t) && forallb (rf_refb r) (wm_tk_summary_head t) &&
+  Nat.eqb (length (wm_tk_offsets t)) 16 && (wm_tk_type t <? 4) && negb (wm_ck_offset (wm_tk_head t) =? 0) &&
+  existsb (fun oh => (fst oh =? wm_ck_offset (wm_tk_head t)) && rf_hdr_eqb (snd oh) (wm_ck_hdr (wm_tk_head t))) (wm_disk r) &&
+  (fm_payload_length (wm_ck_hdr (wm_tk_head t)) =? 128).
+Lemma rf_tokb_ok : forall r t, rf_tokb r t = true -> rf_tok r t.
+Proof.
+  intros r t H. unfold rf_tokb in H.
+  apply andb_true_iff in H as [H H8]. apply andb_true_iff in H as [H H7]. apply andb_true_iff in H as [H H6].
+  apply andb_true_iff in H as [H H5]. apply andb_true_iff in H as [H H4]. apply andb_true_iff in H as [H H3].
+  apply andb_true_iff in H as [H1 H2].
+  split; [apply rf_refb_ok; exact H1|].
+  split; [apply Forall_forall; intros c Hc; apply rf_refb_ok; rewrite forallb_forall in H2; apply H2; exact Hc|].
+  split; [apply Forall_forall; intros c Hc; apply rf_refb_ok; rewrite forallb_forall in H3; apply H3; exact Hc|].
+  split; [apply Nat.eqb_eq; exact H4|]. split; [apply N.ltb_lt; exact H5|].
+  split; [apply N.eqb_neq; destruct (wm_ck_offset (wm_tk_head t) =? 0); [discriminate|reflexivity]|].
+  split; [|apply N.eqb_eq; exact H8].
+  apply existsb_exists in H7. destruct H7 as ([o h] & Hin & E). cbn [fst snd] in E.
+  apply andb_true_iff in E as [E1 E2]. apply N.eqb_eq in E1. apply rf_hdr_eqb_eq in E2. subst. exact Hin.
+Qed.
